@@ -114,3 +114,26 @@ Proof.
   destruct c as [[sub iat]|]; cbn [claim_iat claim_sub claim_nil orb]; [|reflexivity].
   rewrite src_is_revoked. reflexivity.
 Qed.
+
+(* ---------- the wrappers that store: AccountClaims / Export RevokeAt, Revoke, ClearRevocation ----------
+   The revocation map is a data field of the abstract receiver that the body stores into: it is carried as a variable
+   that starts as the field's value on entry and is handed back.  [h] is the holder (None = a nil map). *)
+Definition h_isnil (h : holder) : bool := match h with None => true | Some _ => false end.
+Lemma src_acct_revoke_at (h : holder) (k : string) (t : Z) :
+  Some (V2.AccountClaims_RevokeAt (h_map h) (h_isnil h) k t) = h_revoke_at k t h.
+Proof. unfold V2.AccountClaims_RevokeAt, h_revoke_at. cbv zeta. rewrite src_revoke. destruct h; reflexivity. Qed.
+Lemma src_export_revoke_at (h : holder) (k : string) (t : Z) :
+  Some (V2.Export_RevokeAt (h_map h) (h_isnil h) k t) = h_revoke_at k t h.
+Proof. unfold V2.Export_RevokeAt, h_revoke_at. cbv zeta. rewrite src_revoke. destruct h; reflexivity. Qed.
+(* Revoke: RevokeAt at the time time.Now() reads - that and nothing else *)
+Lemma src_acct_revoke (h : holder) (now : Z) (k : string) :
+  Some (V2.AccountClaims_Revoke (h_map h) (h_isnil h) now k) = h_revoke_at k now h.
+Proof. exact (src_acct_revoke_at h k now). Qed.
+Lemma src_export_revoke (h : holder) (now : Z) (k : string) :
+  Some (V2.Export_Revoke (h_map h) (h_isnil h) now k) = h_revoke_at k now h.
+Proof. exact (src_export_revoke_at h k now). Qed.
+(* ClearRevocation: the list's own, on the map as it is (a nil map stays without entries) *)
+Lemma src_acct_clear (h : holder) (k : string) : V2.AccountClaims_ClearRevocation (h_map h) k = clear k (h_map h).
+Proof. unfold V2.AccountClaims_ClearRevocation. apply src_clear. Qed.
+Lemma src_export_clear (h : holder) (k : string) : V2.Export_ClearRevocation (h_map h) k = clear k (h_map h).
+Proof. unfold V2.Export_ClearRevocation. apply src_clear. Qed.
